@@ -25,7 +25,7 @@ from molgri.space.rotobj import SphereGridFactory
 
 PROPERTY = "C08"
 SPECS_Q = ["ico_7", "ico_13", "cube3D_9", "cube3D_27", "randomS_6", "cube4D_5", "cube4D_9", "randomQ_6"]
-GETTERS = ["array", "volumes", "volumes_approx", "prefactors", "adjacency", "borders", "distances", "full_array"]
+GETTERS = ["array", "volumes", "volumes_approx", "prefactors", "adjacency", "borders", "distances", "full_array", "hulls"]
 START_SEED = 424242
 _TABLE = None
 
@@ -50,7 +50,18 @@ def create(spec):
     return SphereGridFactory.create(alg_name=alg, N=int(N), dimensions=dim_of(alg))
 
 
+def observe_hulls(sv) -> str:
+    """per-cell convex hulls of the cell model (public helper used by plots and by the 4-D volumes)"""
+    try:
+        hs = sv.get_convex_hulls()
+    except Exception as e:
+        return "raises:" + type(e).__name__
+    return sha(len(hs), *[np.ascontiguousarray(h.points).tobytes() + np.float64(h.area).tobytes() for h in hs])
+
+
 def observe_fg(fg, getter) -> str:
+    if getter == "hulls":
+        return observe_hulls(fg.b_rotations.get_spherical_voronoi())
     if getter == "prefactors":
         m = fg.get_full_prefactors().tocoo()
         return sha(m.row.tobytes(), m.col.tobytes(), np.asarray(m.data).tobytes(), m.shape)
@@ -71,6 +82,8 @@ def observe(obj, getter) -> str:
         except Exception as e:          # e.g. prefactors of a grid with unbounded cells (F6): the outcome is the exception
             return "raises:" + type(e).__name__
     d = obj.dimensions
+    if getter == "hulls":
+        return observe_hulls(obj.get_spherical_voronoi())
     if getter == "array":
         a = obj.get_grid_as_array()
         return sha(np.ascontiguousarray(a).tobytes(), a.shape)
